@@ -175,3 +175,7 @@ Theorem C03_source_exponent_inside_the_interval_for_any_logarithm : forall lgr l
                              (if quad then (if rlt xabs eps32 then k else 2 * k) else k).
 Proof. exact gen_clip_po2_in_interval. Qed.
 Print Assumptions C03_source_exponent_inside_the_interval_for_any_logarithm.
+Theorem C03_source_po2_value_is_sign_times_power_of_two : forall e x,
+  req (Po2CallGen.gen_po2_xq e x) (po2_val (sign1r x, e)) = true.
+Proof. exact link_po2_xq. Qed.
+Print Assumptions C03_source_po2_value_is_sign_times_power_of_two.
